@@ -684,6 +684,11 @@ fn run_op(rep: &Report, ck: &str, op: &Op) -> CheckResult {
     if hs % 3 == 0 {
         crate::history::warmup(hs, 1 + (hs % 4) as usize);
         rep.class("after-warm-up-history");
+    } else if hs % 3 == 1 {
+        // another third: a call the library refuses, immediately before the operation (the first library call of
+        // the operation then meets whatever the error path left behind on this thread)
+        let tag = with_suite!(suite_of(op), CS => crate::history::refused_call::<CS>(hs >> 3));
+        rep.class(&format!("right-after-a-refused-call:{}", tag));
     }
     let res = with_suite!(suite_of(op), CS => diff::<CS>(rep, ck, op));
     match res {
@@ -845,7 +850,7 @@ pub fn run(ctx: &Ctx, rep: &Report) -> Meta {
                hash_to_scalar (dst up to 400 octets), messages_to_scalars, Sign, and verifier decisions on honest and mutated artefacts (message / header / ph / pk edits, bit flips, index shifts, whole-scalar framing edits, zero scalars, a scalar written as value + r, artefacts forged around the identity element (proof with Abar = Bbar = O and cancelling responses, signature under the identity public key), identity points, trailing bytes, L+-1, other blinding factor, list shapes of the disclosed data: one more message than indexes, one more (unlisted) index than messages, a second entry under an index that is already listed) \
                for verify, proof_verify, blind_sign's commitment validation, verify_blind_sign, blind_proof_verify; proofs and commitments made by the library must be accepted by the reference and vice versa; every blind proof statement (honest and mutated) is decided a second time in the verifier's one-list spelling (committed messages in disclosed_messages under their absolute positions j + L + 1, committed lists None or empty); \
                oracle: byte equality of outputs and equality of Ok/Err decisions with the independent reference model, which must first reproduce every fixture; \
-               size sweep: Sign octets, proof and blind round trips for every L in 0..=72 (quick) / 0..=260 (thorough); every message length 0..=600 / 2100 through messages_to_scalars, every header length 0..=1100 through Sign, every hash_to_scalar input length 0..=300, every interface-identifier length 190..=262 through messages_to_scalars and create_generators; a third of the operations after a warm-up history; a quarter of the verification comparisons ask the same decoded object three times (as given, other header, as given); volume: 3600 (quick) / 40000 (thorough) small Sign / Verify / ProofVerify comparisons; schedules: lists of such operations executed by 2, 4 or 16 threads released from a barrier in rotated orders; non-trivial = every generated operation (none coincides with a fixture); evaluations = compared outputs / decisions"
+               size sweep: Sign octets, proof and blind round trips for every L in 0..=72 (quick) / 0..=260 (thorough); every message length 0..=600 / 2100 through messages_to_scalars, every header length 0..=1100 through Sign, every hash_to_scalar input length 0..=300, every interface-identifier length 190..=262 through messages_to_scalars and create_generators; a third of the operations right after a call the library refuses, a third of the operations after a warm-up history; a quarter of the verification comparisons ask the same decoded object three times (as given, other header, as given); volume: 3600 (quick) / 40000 (thorough) small Sign / Verify / ProofVerify comparisons; schedules: lists of such operations executed by 2, 4 or 16 threads released from a barrier in rotated orders; non-trivial = every generated operation (none coincides with a fixture); evaluations = compared outputs / decisions"
             .into(),
         assumptions: vec![
             "trusted and shared with the library: bls12_381_plus arithmetic, point compression, pairing, hash_to_curve, sha2 / sha3".into(),
